@@ -564,6 +564,11 @@ func (vc *VC) preludeText() string {
 	} else {
 		b.WriteString("(define-fun wf-slice ((s Slice)) Bool (and (<= 0 (sl-ref s)) (<= 0 (sl-len s)) (<= (sl-len s) (sl-cap s)) (< (sl-cap s) 4611686018427387904) (<= 0 (sl-off s)) (< (sl-off s) 4611686018427387904) (=> (= (sl-ref s) 0) (= (sl-cap s) 0))))\n")
 	}
+	if vc.needBytes {
+		b.WriteString("(declare-sort Bytes 0)\n")
+		b.WriteString("(declare-fun bytes-of ((Array " + is + " " + vc.intSort(8).Name + ") " + is + " " + is + ") Bytes)\n")
+		b.WriteString("(declare-const bytes-nil Bytes)\n")
+	}
 	if vc.needStr {
 		b.WriteString("(declare-sort Str 0)\n")
 		b.WriteString("(declare-fun str-len (Str) " + is + ")\n")
@@ -574,6 +579,11 @@ func (vc *VC) preludeText() string {
 		}
 		b.WriteString("(declare-fun str-cat (Str Str) Str)\n(declare-fun str-lt (Str Str) Bool)\n")
 		b.WriteString("(declare-fun str-sub (Str " + is + " " + is + ") Str)\n")
+		if vc.needBytes {
+			// the byte content of a string; injective (the content determines the string)
+			b.WriteString("(declare-fun str-bytes (Str) Bytes)\n")
+			b.WriteString("(assert (forall ((a Str) (b Str)) (! (=> (= (str-bytes a) (str-bytes b)) (= a b)) :pattern ((str-bytes a) (str-bytes b)))))\n")
+		}
 	}
 	return b.String()
 }
